@@ -875,6 +875,30 @@ def _norm_simple(stmts, ctx):
                         changed = True
                         i += 1
                         continue
+            # if c: ..; t = K1  else: ..; t = K2     followed by     if [not] t: X        (t a flag used nowhere else)
+            if isinstance(st, ast.If) and st.orelse and isinstance(nxt, ast.If) and not nxt.orelse and ctx.get("root") is not None:
+                def flag_of(block):
+                    if block and isinstance(block[-1], ast.Assign) and len(block[-1].targets) == 1 \
+                            and isinstance(block[-1].targets[0], ast.Name) and isinstance(block[-1].value, ast.Constant) \
+                            and type(block[-1].value.value) is bool:
+                        return block[-1].targets[0].id, block[-1].value.value
+                    return None, None
+                t1, k1 = flag_of(st.body)
+                t2, k2 = flag_of(st.orelse)
+                tt = nxt.test
+                neg = isinstance(tt, ast.UnaryOp) and isinstance(tt.op, ast.Not)
+                tname = tt.operand.id if neg and isinstance(tt.operand, ast.Name) else tt.id if isinstance(tt, ast.Name) else None
+                if t1 is not None and t1 == t2 == tname and sum(
+                        1 for n in ast.walk(ctx["root"]) if isinstance(n, ast.Name) and n.id == tname) == 3:
+                    def arm(block, k):
+                        fires = (not k) if neg else k
+                        extra = [ast.parse(ast.unparse(x)).body[0] for x in nxt.body] if fires else []
+                        return list(block[:-1]) + extra
+                    nb, no = arm(st.body, k1), arm(st.orelse, k2)
+                    out.append(ast.If(test=st.test, body=nb or [ast.Pass()], orelse=no, lineno=st.lineno, col_offset=0))
+                    changed = True
+                    i += 2
+                    continue
             if isinstance(st, ast.Return) and isinstance(st.value, ast.IfExp):
                 e = st.value
                 out.append(ast.If(test=e.test, body=[ast.Return(value=e.body, lineno=st.lineno, col_offset=0)],
